@@ -588,6 +588,26 @@ func (w *World) ShutdownOnCall(from int, on bool) {
 	w.mu.Unlock()
 }
 
+// LeaveStaggered kills node id and notifies the survivors one after the other, `gap` of virtual time
+// apart (failure detectors do not fire simultaneously); gossip flows in between.
+func (w *World) LeaveStaggered(id int, gap time.Duration) {
+	n := w.Node(id)
+	n.Dead = true
+	n.stop()
+	for _, c := range w.Clients {
+		if c.Node == n {
+			c.Drop()
+		}
+	}
+	synctest.Wait()
+	for _, s := range w.Nodes {
+		if !s.Dead {
+			s.Members.NotifyGossipLeave(uint64(id))
+			w.Idle(gap)
+		}
+	}
+}
+
 // Leave kills node id: its context is cancelled, its clients are dropped by the harness (the
 // machine is gone), and every survivor is notified through NotifyGossipLeave.
 func (w *World) Leave(id int) {
